@@ -70,7 +70,7 @@ ENGINES = {
                    # code under test become scheduler yield points (no ASan in this variant)
                    variant_build={"atomics": dict(san="-fsanitize=thread,undefined", ld_san="-fsanitize=undefined",
                                                   extra=["sim/logsim/atomics_rt.cpp"])},
-                   variant_weight={"atomics": 0.6}, variant_recycle={"atomics": 1200},
+                   variant_weight={"atomics": 0.6}, variant_recycle={"atomics": 1200}, spin_fallback="atomics",
                    probes=[("LS_HAVE_CALLABLE_LIT", "sim/logsim/probe_callable_lit.cpp"),
                            ("LS_HAVE_CALLABLE_FN", "sim/logsim/probe_callable_fn.cpp"),
                            ("LS_HAVE_CALLABLE_OBJ", "sim/logsim/probe_callable_obj.cpp")]),
@@ -369,6 +369,9 @@ class Batch:
         self.outdir = os.path.join(os.environ.get("VERIF_REPLAY_DIR", os.path.join(VERIF, "replays")), prop)
         self.scratch = os.path.join(BUILD, "scratch", prop + "-" + tier)
         self.deadline = 0
+        self.stop = False           # set when the batch is being abandoned (see spin_fallback)
+        self.spin_fallback = False  # an ASan-built variant hung and an `atomics` variant exists
+        self.fallback_variant = None
 
     def add_viol(self, cls, sig, replay, ops, again=False, origin=None):
         with self.lock:
@@ -390,6 +393,8 @@ class Batch:
                 chunk = n
         if chunk:
             for c in range(a, b, chunk):
+                if self.stop:
+                    return
                 self.worker_chunk(binary, wid, c, min(b, c + chunk), extra)
         else:
             self.worker_chunk(binary, wid, a, b, extra)
@@ -397,7 +402,7 @@ class Batch:
     def worker_chunk(self, binary, wid, a, b, extra):
         cur = a
         restarts = 0
-        while cur < b:
+        while cur < b and not self.stop:
             hashfile = os.path.join(self.scratch, "h_%s_%d_%d.bin" % (os.path.basename(binary), wid, cur))
             cmd = [binary, "--prop", self.prop, "--seed", str(self.seed), "--tier", self.tier,
                    "--from", str(cur), "--to", str(b), "--outdir", self.outdir,
@@ -457,6 +462,14 @@ class Batch:
                 return
             # the worker died inside run `last`: sanitizer report, signal or watchdog
             cls = self.prop + "/" + classify_stderr(err, rc)
+            if cls.endswith("/hang") and self.fallback_variant and not os.path.basename(binary).endswith("_" + self.fallback_variant):
+                # A thread of the code under test blocks or spins where this build has no seam (a
+                # busy-wait on an atomic).  The variant whose atomic operations are yield points can
+                # schedule such code: abandon this batch and repeat it with that variant alone.
+                with self.lock:
+                    self.spin_fallback = True
+                    self.stop = True
+                return
             with self.lock:
                 self.deaths += 1
                 first = cls not in self.crash_classes
@@ -488,7 +501,8 @@ class Batch:
         out = os.path.join(self.outdir, "%s-crash-s%dr%d.replay" % (re.sub(r"[^A-Za-z0-9_\-]", "_", cls2.split("/", 1)[1]), self.seed, run))
         cmd = [binary, "--prop", self.prop, "--tier", self.tier, "--minimise-crash", planfile, "--out", out]
         try:
-            r2 = run_cmd(cmd, timeout=600)
+            # a run that hangs or exhausts the step budget costs up to a minute per execution
+            r2 = run_cmd(cmd, timeout=150 if cls2.endswith(("/hang", "/step-budget")) else 600)
         except subprocess.TimeoutExpired:
             self.harness_errors.append("crash minimisation timed out for run %d" % run)
             return
@@ -528,7 +542,7 @@ def resolve_nondet(batch):
             rf = os.path.join(batch.scratch, "range_%d_%d.replay" % (a, nd["run"]))
             with open(rf, "w") as f:
                 vname = os.path.basename(nd["binary"]).split("_")[-1]
-                knob = "knob min=%d\n" % SEVS.index(vname) if vname in SEVS else ""
+                knob = "knob min=%d\n" % SEVS.index(vname) if vname in SEVS else ("knob min=0\nknob atomics=1\n" if vname == "atomics" else "")
                 f.write("nitro-verif-replay 1\nengine %s property %s seed %d run %d tier %s\n%srange from=%d to=%d\nexpect class=%s at_op=-1 sig=\"%s\" detail=\"\"\n"
                         % (batch.engine, batch.prop, batch.seed, nd["run"], batch.tier, knob, a, nd["run"], nd["cls"], nd["sig"]))
             rr = run_cmd([nd["binary"], "--replay", rf, "--prop", batch.prop] + nd["extra"], timeout=900)
@@ -591,38 +605,53 @@ def run_check(prop, tier, seed):
     t_built = time.time()
     known = load_known()
     avoid = ";".join(sorted(set(k["sig"] for k in known if k.get("status") == "open" and k.get("property") == prop and k.get("sig"))))
-    batch = Batch(prop, tier, seed)
-    shutil.rmtree(batch.outdir, ignore_errors=True)
-    shutil.rmtree(batch.scratch, ignore_errors=True)
-    os.makedirs(batch.outdir, exist_ok=True)
-    os.makedirs(batch.scratch, exist_ok=True)
-    total = int(os.environ.get("VERIF_RUNS", spec[tier]))
-    batch.deadline = time.time() + (QUICK_WALL_CAP if tier == "quick" else THOROUGH_WALL_CAP)
     extra = ["--avoid", avoid] if avoid else []
-    # split the run-index range over NCPU workers; variants (logsim minima) interleave
-    threads = []
-    nb = len(bins)
-    assign = []
-    for w in range(NCPU):
-        vname, binary = bins[w % nb]
-        if nb > 1:
-            # every variant must see every part of the index space over time: rotate by seed
-            vname, binary = bins[(w + seed) % nb]
-        assign.append((vname, binary))
-    # a slower variant gets a proportionally shorter slice of the index range
-    weights = [ENGINES[engine].get("variant_weight", {}).get(v, 1.0) for v, _ in assign]
-    wsum = sum(weights)
-    cum = 0.0
-    a = 0
-    for w in range(NCPU):
-        cum += weights[w]
-        b = total if w == NCPU - 1 else max(a, int(round(total * cum / wsum)))
-        th = threading.Thread(target=batch.worker, args=(assign[w][1], w, a, b, extra))
-        th.start()
-        threads.append(th)
-        a = b
-    for th in threads:
-        th.join()
+    total = int(os.environ.get("VERIF_RUNS", spec[tier]))
+    fallback = ENGINES[engine].get("spin_fallback")
+    if fallback and fallback not in [v for v, _ in bins]:
+        fallback = None
+
+    def run_batch(use_bins, note_fallback):
+        batch = Batch(prop, tier, seed)
+        batch.fallback_variant = note_fallback
+        shutil.rmtree(batch.outdir, ignore_errors=True)
+        shutil.rmtree(batch.scratch, ignore_errors=True)
+        os.makedirs(batch.outdir, exist_ok=True)
+        os.makedirs(batch.scratch, exist_ok=True)
+        batch.deadline = time.time() + (QUICK_WALL_CAP if tier == "quick" else THOROUGH_WALL_CAP)
+        # split the run-index range over NCPU workers; variants (logsim minima) interleave
+        threads = []
+        nb = len(use_bins)
+        assign = []
+        for w in range(NCPU):
+            vname, binary = use_bins[w % nb]
+            if nb > 1:
+                # every variant must see every part of the index space over time: rotate by seed
+                vname, binary = use_bins[(w + seed) % nb]
+            assign.append((vname, binary))
+        # a slower variant gets a proportionally shorter slice of the index range
+        weights = [ENGINES[engine].get("variant_weight", {}).get(v, 1.0) if nb > 1 else 1.0 for v, _ in assign]
+        wsum = sum(weights)
+        cum = 0.0
+        a = 0
+        for w in range(NCPU):
+            cum += weights[w]
+            b = total if w == NCPU - 1 else max(a, int(round(total * cum / wsum)))
+            th = threading.Thread(target=batch.worker, args=(assign[w][1], w, a, b, extra))
+            th.start()
+            threads.append(th)
+            a = b
+        for th in threads:
+            th.join()
+        return batch
+
+    batch = run_batch(bins, fallback)
+    fell_back = False
+    if batch.spin_fallback:
+        log("note: a run blocked or spun where the ASan-built variants have no scheduler seam; repeating the batch "
+            "with the `%s` variant alone (atomic operations are yield points there)" % fallback)
+        fell_back = True
+        batch = run_batch([(v, b) for v, b in bins if v == fallback], None)
     resolve_nondet(batch)
     t_search = time.time()
 
@@ -725,6 +754,7 @@ def run_check(prop, tier, seed):
             "evaluations": evals,
             "distinct_nontrivial": distinct,
             "distinct_is_lower_bound": capped,
+            "repeated_with_atomics_variant_only": fell_back,
             "rule": RULES[engine],
             "samples": samples,
             "simulated_runs": runs,
